@@ -22,7 +22,7 @@ PROP = {
                     "a request that does not complete within 20 s makes the run inconclusive (exit 2)"],
     "file_prefixes": ["c01_", "c02_"],
     "tests": [
-        {"name": "TestVerifC02_Masquerade", "unit": U, "quick": 200, "thorough": 350, "shards": 1, "shards_thorough": 12,
+        {"name": "TestVerifC02_Masquerade", "unit": U, "quick": 200, "thorough": 2500, "shards": 1, "shards_thorough": 16,
          "timeout_quick": 600, "timeout_thorough": 3600, "shrinktime": "40s"},
     ],
 }
